@@ -339,6 +339,12 @@ impl<'a> PointCloudWriter<'a> {
         &&& self.section_header.section_length >= 32 && self.section_header.section_length as int <= self.writer.cursor()
         &&& self.section_header.section_length % 4 == 0
     }
+    /// C15: the section lies behind the file header
+    spec fn far(&self) -> bool { unphys(self.section_offset as int) >= 40 }
+    /// C15 frame of the point cloud writer operations: they never carry anything for device bytes 32..40
+    spec fn c15_pc(o: &Self, n: &Self, ok: bool) -> bool {
+        (o.writer.quiet() && o.far()) ==> (if ok { n.writer.quiet() } else { n.writer.hist_clean() })
+    }
     /// what does not change when buffered points are packed and written
     spec fn same_meta(&self, o: &Self) -> bool {
         &&& self.prototype == o.prototype && self.point_count == o.point_count && self.max_points_per_packet == o.max_points_per_packet
@@ -354,7 +360,7 @@ impl<'a> PointCloudWriter<'a> {
     spec fn packed_now(&self) -> int {
         if self.max_points_per_packet <= self.buffer@.len() { self.max_points_per_packet as int } else { self.buffer@.len() as int }
     }
-//@fn src/pc_writer.rs PointCloudWriter new serves=C01,C02,C14,C10,C16 ret=r
+//@fn src/pc_writer.rs PointCloudWriter new serves=C01,C02,C14,C10,C16,C15 ret=r
 //@rw writer: &'a mut PagedWriter<T> ==> writer: &'a mut PagedWriter
 //@rw Self::validate_prototype\(&prototype\)\? ==> validate_prototype_contract(&prototype)?
 //@rw vec!\[ByteStreamWriteBuffer::new\(\); prototype\.len\(\)\] ==> shim_vec_bsw(prototype.len())
@@ -387,6 +393,7 @@ impl<'a> PointCloudWriter<'a> {
             /*[C01,C02]*/ r is Ok ==> r->Ok_0.section_offset == phys(old(writer).cursor()) && r->Ok_0.section_header.data_offset == phys(old(writer).cursor() + 32)
                 && r->Ok_0.section_header.section_length == 32 && r->Ok_0.section_header.section_id == 1,
             /*[C16]*/ r is Ok ==> r->Ok_0.writer.no_new_fault(old(writer)),
+            /*[C15]*/ (r is Ok && old(writer).quiet() && old(writer).cursor() >= 40) ==> r->Ok_0.writer.quiet() && r->Ok_0.far(),
 //@body_start
         let ghost w0 = *writer;
         proof { lemma_cursor_bound(w0); lemma_phys_roundtrip(w0.cursor()); }
@@ -416,7 +423,7 @@ impl<'a> PointCloudWriter<'a> {
         }
 //@endfn
 
-//@fn src/pc_writer.rs PointCloudWriter write_buffer_to_disk serves=C01,C02,C10,C16 ret=r
+//@fn src/pc_writer.rs PointCloudWriter write_buffer_to_disk serves=C01,C02,C10,C16,C15 ret=r
 //@rw for _ in 0\.\.packet_points ==> for _k in it: 0..packet_points
 //@rw for \(i, prototype\) in self\.prototype\.iter\(\)\.enumerate\(\) \{ ==> for i in it2: 0..self.prototype.len() { let prototype = &self.prototype[i];
 //@rw \.write\(&mut self\.writer\)\? ==> .write(self.writer)?
@@ -436,9 +443,12 @@ impl<'a> PointCloudWriter<'a> {
             // their encodings go to the byte streams and (whole bytes) into exactly one well-formed data packet
             /*[C01,C02]*/ r is Ok ==> exists|chunks: Seq<Seq<u8>>| #[trigger] final(self).emitted(old(self), old(self).packed_now(), last_flush, chunks),
             /*[C16]*/ r is Ok ==> final(self).writer.no_new_fault(&*old(self).writer),
+            /*[C15]*/ PointCloudWriter::c15_pc(old(self), final(self), r is Ok),
+//@body_start
+        proof { if old(self).writer.quiet() { lemma_quiet_clean(*old(self).writer); } }
 //@loop 0 head hdr=for _k in it: 0\.\.packet_points
             invariant
-                self.same_meta(old(self)), self.writer == old(self).writer, self.section_header == old(self).section_header,
+                self.same_meta(old(self)), self.writer == old(self).writer, self.section_header == old(self).section_header, old(self).writer.quiet() ==> old(self).writer.hist_clean(),
                 old(self).wf_w(), proto_len == self.n(), packet_points <= old(self).buffer@.len(), packet_points <= old(self).max_points_per_packet,
                 self.buffer@ =~= old(self).buffer@.subrange(it.index@ as int, old(self).buffer@.len() as int),
                 self.byte_streams@.len() == self.n(),
@@ -453,7 +463,7 @@ impl<'a> PointCloudWriter<'a> {
 //@loop 1 head
                 invariant
                     it2.snapshot@.end == self.n(), proto_len == self.n(),
-                    self.same_meta(old(self)), self.writer == old(self).writer, self.section_header == old(self).section_header,
+                    self.same_meta(old(self)), self.writer == old(self).writer, self.section_header == old(self).section_header, old(self).writer.quiet() ==> old(self).writer.hist_clean(),
                     old(self).wf_w(), self.buffer@ == pre1.buffer@, self.byte_streams@.len() == self.n(),
                     0 <= idx < old(self).buffer@.len(), idx < 0x10_0000, p == old(self).buffer@[idx],
                     forall|i2: int| 0 <= i2 < i ==> (#[trigger] self.byte_streams@[i2]).wf()
@@ -482,7 +492,8 @@ impl<'a> PointCloudWriter<'a> {
         let ghost mut chunks: Seq<Seq<u8>> = Seq::new(self.n() as nat, |i: int| Seq::<u8>::empty());
         let ghost mut body: Seq<u8> = Seq::empty();
         let ghost mut wmid = *self.writer;
-        proof { lemma_appended_refl(*self.writer); lemma_cursor_bound(*self.writer); }
+        let ghost q15 = self.writer.quiet() && self.far();
+        proof { lemma_appended_refl(*self.writer); lemma_cursor_bound(*self.writer); if q15 { lemma_quiet_clean(*self.writer); } }
 //@loop 2 head
             invariant
                 *self == mid, self.n() == mid.n(), mid.n() < 0x8000, mid.byte_streams@.len() == mid.n(), 0 <= k <= 0x10_0000,
@@ -508,6 +519,7 @@ impl<'a> PointCloudWriter<'a> {
                     self.byte_streams == mid.byte_streams, self.buffer == mid.buffer, self.same_meta(&mid), self.section_header == sh1, self.n() == mid.n(),
                     szs.len() == mid.n(), bs_sizes@ == szs, it4.snapshot@.end == szs.len(), self.writer.wf(), self.writer.no_new_fault(&w0), w1.cursor() >= 0,
                     appended(w1, *self.writer, sizes16(szs, si as int)),
+                    q15 == (old(self).writer.quiet() && old(self).far()), q15 ==> self.writer.quiet() && w1.cursor() >= 40,
 //@loop 3 body_start
                 let ghost wb = *self.writer;
 //@loop 3 body_end
@@ -524,6 +536,7 @@ impl<'a> PointCloudWriter<'a> {
                     self.section_header == sh1, self.n() == mid.n(), self.writer.wf(), self.writer.no_new_fault(&w0), w2.cursor() >= 0,
                     built.len() == bi,
                     appended(w2, *self.writer, concat_chunks(built, bi as int)),
+                    q15 == (old(self).writer.quiet() && old(self).far()), q15 ==> self.writer.quiet() && w2.cursor() >= 40,
                     forall|i: int| 0 <= i < mid.n() ==> (#[trigger] mid.byte_streams@[i]).wf(),
                     forall|i: int| bi <= i < mid.n() ==> self.byte_streams@[i] == mid.byte_streams@[i],
                     forall|i: int| 0 <= i < bi ==> (#[trigger] built[i]).len() == mid.byte_streams@[i].chunk_len(last_flush) && self.byte_streams@[i].wf()
@@ -565,7 +578,7 @@ impl<'a> PointCloudWriter<'a> {
         }
 //@endfn
 
-//@fn src/pc_writer.rs PointCloudWriter finalize serves=C01,C02,C14,C09,C16 ret=r
+//@fn src/pc_writer.rs PointCloudWriter finalize serves=C01,C02,C14,C09,C16,C15 ret=r
 //@rw self\.section_header\.write\(&mut self\.writer\)\? ==> self.section_header.write(self.writer)?
 //@rw !self\.buffer\.is_empty\(\) ==> self.buffer.len() > 0
 //@rw self\.guid\.clone\(\) ==> shim_clone_opaque(&self.guid)
@@ -593,13 +606,15 @@ impl<'a> PointCloudWriter<'a> {
                 &&& pc.color_limits == old(self).color_limits && pc.intensity_limits == old(self).intensity_limits
             }),
             /*[C16]*/ r is Ok ==> final(self).writer.no_new_fault(&*old(self).writer),
+            /*[C15]*/ PointCloudWriter::c15_pc(old(self), final(self), r is Ok),
 //@loop 0 head
             invariant self.wf_w(), self.same_meta(old(self)), self.writer.no_new_fault(&*old(self).writer),
+                (old(self).writer.quiet() && old(self).far()) ==> self.writer.quiet(),
             // C09: every round packs at least one buffered point
             decreases self.buffer@.len(),
 //@call physical_position 0 before
         let ghost wa = *self.writer;
-        proof { lemma_cursor_bound(wa); lemma_phys_roundtrip(wa.cursor()); }
+        proof { lemma_cursor_bound(wa); lemma_phys_roundtrip(wa.cursor()); if wa.quiet() { lemma_quiet_clean(wa); } }
 //@call physical_seek 0 after
         let ghost wb = *self.writer;
 //@call write 0 after
@@ -613,7 +628,7 @@ impl<'a> PointCloudWriter<'a> {
         }
 //@endfn
 
-//@fn src/pc_writer.rs PointCloudWriter add_point serves=C10,C14,C01 ret=r
+//@fn src/pc_writer.rs PointCloudWriter add_point serves=C10,C14,C01,C15 ret=r
 //@rw for \(i, p\) in self\.prototype\.iter\(\)\.enumerate\(\) \{ ==> for i in 0..self.prototype.len() { let p = &self.prototype[i]; ;n=2
 //@sig
         requires old(self).point_count < u64::MAX, old(self).bounds_present(), old(self).wf_w(),
@@ -636,15 +651,18 @@ impl<'a> PointCloudWriter<'a> {
             // a rejected point (not counted) leaves the bounds untouched: bounds are the min/max over the points ADDED
             /*[C14]*/ (r is Err && final(self).point_count == old(self).point_count) ==> final(self).cartesian_bounds == old(self).cartesian_bounds && final(self).spherical_bounds == old(self).spherical_bounds && final(self).index_bounds == old(self).index_bounds,
             /*[C10]*/ (r is Err && final(self).point_count == old(self).point_count) ==> final(self).buffer@ == old(self).buffer@,
+            /*[C15]*/ PointCloudWriter::c15_pc(old(self), final(self), r is Ok),
+//@body_start
+        proof { if old(self).writer.quiet() { lemma_quiet_clean(*old(self).writer); } }
 //@loop 0 head
             invariant
-                *self == *old(self), old(self).bounds_present(), old(self).wf_w(),
+                *self == *old(self), old(self).bounds_present(), old(self).wf_w(), old(self).writer.quiet() ==> old(self).writer.hist_clean(),
                 values@.len() == self.prototype@.len(),
                 /*[C10]*/ forall|j: int| 0 <= j < i ==> (#[trigger] self.prototype@[j]).data_type.fits(values@[j]),
 //@loop 1 head
             invariant
                 self.prototype == old(self).prototype, self.point_count == old(self).point_count, self.buffer == old(self).buffer,
-                old(self).bounds_present(), old(self).wf_w(), self.byte_streams == old(self).byte_streams, self.writer == old(self).writer,
+                old(self).bounds_present(), old(self).wf_w(), self.byte_streams == old(self).byte_streams, self.writer == old(self).writer, old(self).writer.quiet() ==> old(self).writer.hist_clean(),
                 self.section_header == old(self).section_header, self.section_offset == old(self).section_offset,
                 self.max_points_per_packet == old(self).max_points_per_packet, self.pointclouds == old(self).pointclouds,
                 self.color_limits == old(self).color_limits, self.intensity_limits == old(self).intensity_limits,
